@@ -347,7 +347,7 @@ def bytecount_curve(rng, n=None):
 def long_curve(rng, n=None):
     """a LONG curve (> 1024 points): smooth decay + small dyadic noise + a few one-point spikes, so that the chord-distance profile of
     the large ranges is not unimodal.  Anything that treats long ranges differently (sub-sampling, chunking, recursion limits) shows here."""
-    n = n or rng.randrange(1100, 2400)
+    n = n or (rng.randrange(4097, 5200) if rng.random() < 0.35 else rng.randrange(1100, 2400))      # also beyond 4096 points
     x = np.arange(n, dtype=float) * rng.choice([1.0, 0.5, 2.0])
     k = rng.choice([0.002, 0.004, 0.008])
     y = np.round(4096.0 * np.exp(-k * np.arange(n))) / 4.0 + np.array([rng.randrange(0, 4) / 8.0 for _ in range(n)])
